@@ -72,17 +72,21 @@ class ToyPhases(Slice):
             except StepSequenceError:
                 raised = True
             after = snapshot(sim)
-            if raised == legal:
-                findings.append(("violation", f"call {k} (op {op}, next_cycle {nc}, done {was_done}): "
-                                 + ("raised StepSequenceError although in order" if raised else "out of order but no StepSequenceError")))
-            if not legal:
-                cl.add("illegal")
-                if after != before:
-                    findings.append(("violation", f"call {k} (op {op}) out of order changed the state"))
-            elif was_done:
+            if was_done:
+                # "all of these are no-ops once the program is done": whether a call that is ALSO out of order then raises
+                # the sequencing error or silently does nothing is not fixed by the property; the state must not change
                 cl.add("after-done")
                 if after != before:
                     findings.append(("violation", f"call {k} (op {op}) after the program was done changed the state"))
+            elif raised == legal:
+                findings.append(("violation", f"call {k} (op {op}, next_cycle {nc}, done {was_done}): "
+                                 + ("raised StepSequenceError although in order" if raised else "out of order but no StepSequenceError")))
+            if was_done:
+                pass
+            elif not legal:
+                cl.add("illegal")
+                if after != before:
+                    findings.append(("violation", f"call {k} (op {op}) out of order changed the state"))
             else:
                 if op != 0:
                     cl.add("half")
